@@ -22,6 +22,10 @@ CHECKS = {
          "Wrappers are built by the very constructors cmd/compile.go and CompileVerifierCircuit use (exported under the verif tag), then evaluated with proving-time keys that differ in one element (+1/random/zero; every cap entry no query selects, found with the reference verifier), are the other circuit's key or random; ACCEPT iff the key equals the template's; controls require the right key and other proofs of the same circuit to be accepted.",
          "Trusts ref for the selected-slot computation; engine API semantics.",
          "DESIGN.md section 4 (C04)"),
+ "C05": ("fault injection by property-based testing: generated dishonest hint outputs at every static prover-supplied-value site (rapid), differential with compiled R1CS/SCS via solver.OverrideHint, plus an interval-bound invariant monitor over whole executions",
+         "Every hint call of eight isolated gadgets (incl. a full Poseidon permutation, 1650 calls) and the first/middle/last occurrence of each of the 62 static hint-site groups of a whole-verifier execution is replaced by generated dishonest tuples (field-wrap, shifted, field-solved, limb-shifted, inverse+p, arbitrary); any tuple differing from the honest one must be rejected by the requesting gadget's own constraints. A bound monitor checks over ~415k chip equalities that both sides stay below r for every admissible operand value.",
+         "Monitor transfer functions and engine semantics are trusted; Inverse(0) output is a documented don't-care; evidence, not proof.",
+         "DESIGN.md section 4 (C05)"),
  "C06": ("property-based testing (rapid) with an integer oracle, differential across evaluation-engine flavours, gnark's test engine and compiled R1CS/SCS systems, with dishonest limb hints",
          "Boundary-heavy generated values x {RangeCheck, RangeCheckWithMaxBits(n)} x {native / commit / bit decomposition / forced} on the engine, on gnark's own engine and on compiled R1CS and SCS systems (commit mode padded to the 16-bit regime); accepted iff in range, also when the limb hint is replaced by dishonest outputs.",
          "gnark v0.9.1 solver and std/rangecheck trusted as shipped; native-range-checker builder is a thin wrapper doing bit decomposition.",
